@@ -35,6 +35,7 @@ class Transcript:
         self.lines, self.outs = lines, outs
         self.reports = []       # (pos, [records]) for every cycle/flush/cycStep that reported
         self.panics = []
+        self.missing = []       # a cycle completed / flush() returned without the reporter having been called (or the reverse)
         self.dead = False
         self.ctx = {}           # pos -> None | (trace, id, sampled)
         self.cl = {}            # pos -> bool
@@ -51,6 +52,9 @@ class Transcript:
             elif o.startswith("rep "):
                 body = o[4:]
                 if body == "none":
+                    continue
+                if body in ("missing", "unexpected-report"):
+                    self.missing.append((i, body))
                     continue
                 self.reports.append((i, [] if body == "-" else [parse_record(t) for t in body.split(" ")]))
             elif o.startswith("recs "):
@@ -72,14 +76,14 @@ class Transcript:
         return [(pos, r) for pos, rs in self.reports for r in rs]
 
     def cycle_positions(self):
-        return [i for i, l in enumerate(self.lines) if l.split()[1] in ("cycle", "flush")]
+        return [i for i, l in enumerate(self.lines) if l.split()[1] in ("cycle", "flush", "flushEnd")]
 
     def cycles(self):
         """(position where the cycle began, position of its report); a stepped cycle begins at cycBegin"""
         out, begin = [], None
         for i, l in enumerate(self.lines):
             op = l.split()[1]
-            if op in ("cycle", "flush"):
+            if op in ("cycle", "flush", "flushEnd"):
                 out.append((i, i))
             elif op == "cycBegin":
                 begin = i
@@ -115,6 +119,11 @@ def o_no_panic(spec, tr):
     out = []
     for i in tr.panics:
         out.append("call %r panicked" % tr.lines[i])
+    for i, what in tr.missing:
+        if what == "missing":
+            out.append("%r: the collector cycle completed%s but the reporter was not called" % (tr.lines[i], " and flush() returned" if "flush" in tr.lines[i] else ""))
+        else:
+            out.append("%r: the reporter was called although no reporter / no cycle was expected" % tr.lines[i])
     if tr.dead:
         k = next((i for i, o in enumerate(tr.outs) if o in ("<dead>", "timeout", "<no-output>")), None)
         where = ""
@@ -276,7 +285,36 @@ def o_attachments(spec, tr):
         if not ok:
             e = es[0]
             out.append("record %r (trace %x) carries properties %r events %r; attached were properties %r events %r" % (r["name"], r["trace"], r["props"], r["events"], e["props"], e["events"]))
+            continue
+        # order: attachments made through the same route by the same thread keep their order
+        for e in es:
+            groups = []
+            if e.get("groups"):
+                groups = [(tag, g["props"], g["events"]) for tag, g in e["groups"].items()]
+            bad = None
+            for tag, gp, ge in groups:
+                if not is_subsequence([tuple(x) for x in gp], [tuple(x) for x in r["props"]]):
+                    bad = "properties %r attached through %s in this order are delivered as %r" % (gp, tag_text(tag), r["props"])
+                if not is_subsequence([(n, tuple(map(tuple, p))) for n, p in ge], [(n, tuple(map(tuple, p))) for n, p in r["events"]]):
+                    bad = "events %r attached through %s in this order are delivered as %r" % ([n for n, _ in ge], tag_text(tag), [n for n, _ in r["events"]])
+            if bad is None:
+                break
+        else:
+            if es and bad:
+                out.append("record %r (trace %x): %s" % (r["name"], r["trace"], bad))
     return out
+
+
+def is_subsequence(a, b):
+    it = iter(b)
+    return all(any(x == y for y in it) for x in a)
+
+
+def tag_text(tag):
+    route, t = tag
+    return {"own": "the span's own with_properties calls", "handle": "the span handle by thread %s" % t, "local": "the local parent on thread %s" % t,
+            "pushed": "a pushed local-span set on thread %s" % t, "local-span": "the local parent while this local span was innermost",
+            "local-own": "the local span's own with_properties calls"}.get(route, str(tag))
 
 
 def o_contexts(spec, tr):
